@@ -1,4 +1,4 @@
 SPECIFICATION Spec
-CONSTANTS N = 3  KF <- KF01  Fix = FALSE  Pays = {1, 2}  Eszs = {0, 2}  MetaOks = {TRUE}
-INVARIANTS NoCrash SlotStates AllButAnchored
+CONSTANTS N = 3  KF <- KF01  Fix <- FixNone  Pays = {1}  Eszs = {0, 2}  MetaOks = {TRUE}
+INVARIANTS NoCrash SlotStates Today
 CHECK_DEADLOCK FALSE
